@@ -52,6 +52,12 @@ pub enum Field {
     F(f64),
     /// an exact token (integers, bytes, hex strings, status words)
     X(String),
+    /// a float compared with an absolute tolerance; exceeding it is a property violation
+    /// (the model is the reference evaluation), not just a broken tie
+    FA(f64, f64),
+    /// an 8-bit channel: any difference breaks the tie, a difference above 1 violates the
+    /// property ("within one 8-bit step of the independent evaluation")
+    B1(u8),
 }
 
 pub fn x<T: ToString>(t: T) -> Field {
@@ -84,6 +90,8 @@ pub fn fields_to_string(fs: &[Field]) -> String {
         .map(|fl| match fl {
             Field::F(v) => f(*v),
             Field::X(s) => s.clone(),
+            Field::FA(v, _) => f(*v),
+            Field::B1(b) => b.to_string(),
         })
         .collect::<Vec<_>>()
         .join(" ")
